@@ -23,7 +23,7 @@ SPEC = os.path.join(common.VERIF, "spec")
 
 _STATES = re.compile(r"(\d+) states generated, (\d+) distinct states found")
 _DEPTH = re.compile(r"depth of the complete state graph search is (\d+)")
-_VERD = re.compile(r'<<"([A-Z])", (-?\d+), "([^"]*)">>')
+_VERD = re.compile(r'<<"([A-Z])", (-?\d+), "((?:[^"\\]|\\.)*)">>')
 
 
 class TLCFailure(Exception):
